@@ -2,43 +2,62 @@
 
 package lib
 
-// Tie 1 for C17: regenerates lean/CJ/Gen/LogSites.lean — the table of every logger call in the files
-// that handle connections and registrations, with a classification of each argument — from the Go
-// sources of the tree under check.  Standard library only (go/ast, go/parser, go/printer, go/token).
+// Tie 1 for C17: regenerates lean/CJ/Gen/LogSites.lean from the Go sources of the tree under check.
+// Standard library only (go/ast, go/parser, go/printer, go/token, reflect).
 //
-// Per argument:
-//   .lit            a literal
-//   .num            an expression built only from literals, atomic.Load*, len, float64/int64/int/uint
-//                   conversions, math.Max/Min, X.Len(), arithmetic, and local variables assigned such values
-//   .genErr         an error value that went through generalizeErr (directly, or the variable's most
-//                   recent assignment before the call is `x = generalizeErr(…)`)
-//   .rawErr "f"     an error variable whose most recent assignment before the call is a call of f
-//   .typeOf "e"     operand of a %T verb
-//   .expr "e"       anything else, by (gofmt-normalised) source text
+//  * logSites — every logger call, every logger prefix (log.New's second argument, SetPrefix) in every
+//    non-test Go file under cmd/application, pkg/station (but the logger package itself), pkg/transports
+//    and pkg/dtls (but its examples), with a classification of each printed value:
+//      .lit            a literal
+//      .num            an expression built only from literals, atomic.Load*, len, float64/int64/int/uint
+//                      conversions, math.Max/Min, X.Len(), arithmetic, and local variables assigned such values
+//      .genErr         an error value that went through generalizeErr (directly, or every assignment of
+//                      the variable that can reach the call is `x = generalizeErr(…)`)
+//      .rawErr "f"     an error variable that a call of f can have assigned when the call is reached
+//      .typeOf "e"     operand of a %T verb
+//      .expr "e"       anything else: by (gofmt-normalised) source text; a plain identifier as
+//                      `name=<right-hand side>` of each assignment that can reach the call,
+//                      `name=param(<function>)`, `name=range(<expr>)` or `name=?`
+//    fmt.Sprintf / fmt.Sprint / string concatenation / string(x) are looked through (the parts are
+//    classified one by one), also through a local variable that holds such a value.  Assignments in the
+//    then-branch of `if logClientIP { … }` are left out (the property is about logging switched off;
+//    `logClientIPAssigns` below is what shows that it is off unless asked for).
+//  * levelEmitted — which logger methods write at the default level (runtime: a fresh logger of
+//    pkg/station/log and the package-level functions are called and their output observed).
+//  * logClientIPAssigns — the right-hand side of every assignment to logClientIP in cmd/application.
+//  * summaryFields — the fields (reflect: name, Go type) of tunnelStats and regExpireLogMsg and the JSON
+//    keys of DecoyRegistration.String().
 
 import (
 	"bytes"
+	"encoding/json"
 	"fmt"
 	"go/ast"
 	"go/parser"
 	"go/printer"
 	"go/token"
+	golog "log"
+	"net"
 	"os"
 	"path/filepath"
+	"reflect"
 	"regexp"
 	"sort"
 	"strconv"
 	"strings"
 	"testing"
+	"time"
+
+	"github.com/refraction-networking/conjure/pkg/core"
+	"github.com/refraction-networking/conjure/pkg/station/log"
+	pb "github.com/refraction-networking/conjure/proto"
 )
 
-var c17xFiles = []string{
-	"cmd/application/conns.go",
-	"cmd/application/main.go",
-	"pkg/station/lib/proxies.go",
-	"pkg/station/lib/registration.go",
-	"pkg/station/lib/registration_ingest.go",
-}
+var c17xDirs = []string{"cmd/application", "pkg/station", "pkg/transports", "pkg/dtls"}
+
+// directories that are not station code: the logger itself (its methods are the sinks, not call sites)
+// and stand-alone example programs
+var c17xSkipDirs = []string{"pkg/station/log", "pkg/dtls/examples"}
 
 var c17xLevels = map[string]string{
 	"Trace": "trace", "Tracef": "trace", "Traceln": "trace",
@@ -52,25 +71,78 @@ var c17xLevels = map[string]string{
 }
 
 type c17xAssign struct {
-	pos  token.Pos
-	rhs  ast.Expr // nil: unknown (range variable, parameter)
-	last  bool    // the variable is the last of several left-hand sides of one call (error position)
-	multi bool    // one call with several results on the right-hand side
+	pos    token.Pos
+	rhs    ast.Expr // nil: unknown (range variable, declared error)
+	rng    ast.Expr // range statement: the ranged-over expression
+	last   bool     // the variable is the last of several left-hand sides of one call (error position)
+	multi  bool     // one call with several results on the right-hand side
+	define bool     // := or var: introduces a variable in its scope
+	scope  ast.Node // innermost enclosing scope node
+	guard  bool     // inside the then-branch of `if logClientIP`
 }
 
 type c17xFunc struct {
 	fset    *token.FileSet
+	name    string
 	assigns map[string][]c17xAssign
+	params  map[string]bool
+	loops   []ast.Node // for / range statements of the function
+	loggers map[string]bool
+	skipped *[]string
 }
 
-func c17xText(fset *token.FileSet, e ast.Expr) string {
+func c17xText(fset *token.FileSet, e ast.Node) string {
 	var b bytes.Buffer
 	_ = printer.Fprint(&b, fset, e)
 	return strings.Join(strings.Fields(b.String()), " ")
 }
 
+func c17xIsScope(n ast.Node) bool {
+	switch n.(type) {
+	case *ast.BlockStmt, *ast.IfStmt, *ast.ForStmt, *ast.RangeStmt, *ast.SwitchStmt, *ast.TypeSwitchStmt,
+		*ast.CaseClause, *ast.CommClause, *ast.FuncLit, *ast.SelectStmt:
+		return true
+	}
+	return false
+}
+
+var c17xLoggerType = regexp.MustCompile(`^\*?(log|golog)\.Logger$`)
+
 func (f *c17xFunc) collect(body ast.Node) {
+	var stack []ast.Node
+	scopeOf := func() ast.Node {
+		for i := len(stack) - 1; i >= 0; i-- {
+			if c17xIsScope(stack[i]) {
+				return stack[i]
+			}
+		}
+		return body
+	}
+	// inside the then-branch of `if logClientIP { … }`
+	guarded := func() bool {
+		for i := len(stack) - 1; i > 0; i-- {
+			if blk, ok := stack[i].(*ast.BlockStmt); ok {
+				if is, ok := stack[i-1].(*ast.IfStmt); ok && is.Body == blk {
+					if id, ok := is.Cond.(*ast.Ident); ok && id.Name == "logClientIP" {
+						return true
+					}
+				}
+			}
+		}
+		return false
+	}
+	add := func(name string, a c17xAssign) {
+		a.scope, a.guard = scopeOf(), guarded()
+		f.assigns[name] = append(f.assigns[name], a)
+		if a.rhs != nil && f.isLoggerExpr(a.rhs) {
+			f.loggers[name] = true
+		}
+	}
 	ast.Inspect(body, func(n ast.Node) bool {
+		if n == nil {
+			stack = stack[:len(stack)-1]
+			return true
+		}
 		switch s := n.(type) {
 		case *ast.AssignStmt:
 			for i, l := range s.Lhs {
@@ -78,7 +150,7 @@ func (f *c17xFunc) collect(body ast.Node) {
 				if !ok || id.Name == "_" {
 					continue
 				}
-				a := c17xAssign{pos: s.Pos()}
+				a := c17xAssign{pos: s.Pos(), define: s.Tok == token.DEFINE}
 				if len(s.Rhs) == len(s.Lhs) {
 					a.rhs = s.Rhs[i]
 				} else if len(s.Rhs) == 1 {
@@ -86,11 +158,11 @@ func (f *c17xFunc) collect(body ast.Node) {
 					a.multi = true
 					a.last = i == len(s.Lhs)-1
 				}
-				f.assigns[id.Name] = append(f.assigns[id.Name], a)
+				add(id.Name, a)
 			}
 		case *ast.ValueSpec:
 			for i, id := range s.Names {
-				a := c17xAssign{pos: s.Pos()}
+				a := c17xAssign{pos: s.Pos(), define: true}
 				if len(s.Values) == len(s.Names) {
 					a.rhs = s.Values[i]
 				} else if len(s.Values) == 1 {
@@ -99,33 +171,92 @@ func (f *c17xFunc) collect(body ast.Node) {
 					a.last = i == len(s.Names)-1
 				} else {
 					a.rhs = &ast.BasicLit{Kind: token.INT, Value: "0"} // zero value
-					if s.Type != nil && c17xText(f.fset, s.Type) == "error" {
-						a.rhs = nil
+					if s.Type != nil {
+						switch t := c17xText(f.fset, s.Type); {
+						case t == "error":
+							a.rhs = nil
+						case t == "string":
+							a.rhs = &ast.BasicLit{Kind: token.STRING, Value: `""`}
+						case c17xLoggerType.MatchString(t):
+							f.loggers[id.Name] = true
+						}
 					}
 				}
-				f.assigns[id.Name] = append(f.assigns[id.Name], a)
+				add(id.Name, a)
 			}
 		case *ast.RangeStmt:
+			f.loops = append(f.loops, s)
 			for _, l := range []ast.Expr{s.Key, s.Value} {
 				if id, ok := l.(*ast.Ident); ok && id.Name != "_" {
-					f.assigns[id.Name] = append(f.assigns[id.Name], c17xAssign{pos: s.Pos()})
+					stack = append(stack, n) // the range statement is the scope of its variables
+					add(id.Name, c17xAssign{pos: s.Pos(), rng: s.X, define: s.Tok == token.DEFINE})
+					stack = stack[:len(stack)-1]
+				}
+			}
+		case *ast.ForStmt:
+			f.loops = append(f.loops, s)
+		case *ast.FuncLit:
+			for _, fl := range s.Type.Params.List {
+				for _, nm := range fl.Names {
+					f.params[nm.Name] = true
+					if c17xLoggerType.MatchString(c17xText(f.fset, fl.Type)) {
+						f.loggers[nm.Name] = true
+					}
 				}
 			}
 		}
+		stack = append(stack, n)
 		return true
 	})
 }
 
-// latest assignment to name before pos
-func (f *c17xFunc) latest(name string, pos token.Pos) (c17xAssign, bool) {
-	var best c17xAssign
-	found := false
-	for _, a := range f.assigns[name] {
-		if a.pos < pos && (!found || a.pos > best.pos) {
-			best, found = a, true
+func c17xContains(n ast.Node, p token.Pos) bool { return n.Pos() <= p && p < n.End() }
+
+// reaching returns the assignments of name that can have produced its value at pos: the latest one whose
+// scope contains pos, every plain assignment after it in a scope that does not contain pos (a branch that
+// may or may not have run), and every assignment inside a loop that contains pos (next iteration).
+func (f *c17xFunc) reaching(name string, pos token.Pos) []c17xAssign {
+	var dom *c17xAssign
+	all := f.assigns[name]
+	for i := range all {
+		a := &all[i]
+		if a.pos < pos && c17xContains(a.scope, pos) && (dom == nil || a.pos > dom.pos) {
+			dom = a
 		}
 	}
-	return best, found
+	var out []c17xAssign
+	seen := map[token.Pos]bool{}
+	push := func(a c17xAssign) {
+		if !seen[a.pos] && !a.guard {
+			seen[a.pos] = true
+			out = append(out, a)
+		}
+		if a.guard && f.skipped != nil {
+			*f.skipped = append(*f.skipped, fmt.Sprintf("%s: %s", f.name, name))
+		}
+	}
+	if dom != nil {
+		push(*dom)
+	}
+	for _, a := range all {
+		if a.pos < pos && !c17xContains(a.scope, pos) && !a.define && (dom == nil || a.pos > dom.pos) {
+			push(a)
+		}
+	}
+	for _, l := range f.loops {
+		// a definition inside the loop that every iteration passes before it reaches pos cuts off what
+		// the previous iteration assigned
+		if !c17xContains(l, pos) || (dom != nil && dom.pos > l.Pos()) {
+			continue
+		}
+		for _, a := range all {
+			if c17xContains(l, a.pos) && a.pos > pos && !(a.define && !c17xContains(a.scope, pos)) {
+				push(a)
+			}
+		}
+	}
+	sort.Slice(out, func(i, j int) bool { return out[i].pos < out[j].pos })
+	return out
 }
 
 var c17xErrName = regexp.MustCompile(`^(err|er|ew|e|eg|err[A-Z]\w*|\w*Err)$`)
@@ -152,16 +283,20 @@ func (f *c17xFunc) isNum(e ast.Expr, pos token.Pos, depth int) bool {
 		return f.isNum(x.X, pos, depth+1)
 	case *ast.BinaryExpr:
 		switch x.Op {
-		case token.ADD, token.SUB, token.MUL, token.QUO, token.REM:
+		case token.ADD:
 			return f.isNum(x.X, pos, depth+1) && f.isNum(x.Y, pos, depth+1)
+		case token.SUB, token.MUL, token.QUO, token.REM:
+			return true // defined on numbers only (durations included)
 		}
 		return false
 	case *ast.CallExpr:
 		fn := c17xText(f.fset, x.Fun)
 		switch fn {
-		case "atomic.LoadInt64", "atomic.LoadInt32", "atomic.LoadUint64", "atomic.LoadUint32", "len":
-			return true
-		case "float64", "int64", "int", "uint", "uint64", "int32", "uint32", "math.Max", "math.Min":
+		case "atomic.LoadInt64", "atomic.LoadInt32", "atomic.LoadUint64", "atomic.LoadUint32", "len", "cap",
+			"float64", "float32", "int64", "int", "uint", "uint64", "int32", "uint32", "uint16", "int16", "uint8", "int8",
+			"runtime.NumGoroutine":
+			return true // conversions to a numeric type compile for numbers only
+		case "math.Max", "math.Min":
 			for _, a := range x.Args {
 				if !f.isNum(a, pos, depth+1) {
 					return false
@@ -189,44 +324,160 @@ func (f *c17xFunc) isNum(e ast.Expr, pos token.Pos, depth int) bool {
 	return false
 }
 
-// classify returns the Lean term for one argument
-func (f *c17xFunc) classify(e ast.Expr, verb string, pos token.Pos) string {
-	q := func(s string) string { return c17xLeanStr(s) }
-	if verb == "T" {
-		return ".typeOf " + q(c17xText(f.fset, e))
-	}
-	if _, ok := e.(*ast.BasicLit); ok {
-		return ".lit"
-	}
-	if _, ok := c17xIsCall(e, "generalizeErr"); ok {
-		return ".genErr"
-	}
-	// x.Error() → classify x
-	if c, ok := e.(*ast.CallExpr); ok {
-		if sel, ok := c.Fun.(*ast.SelectorExpr); ok && sel.Sel.Name == "Error" && len(c.Args) == 0 {
-			return f.classify(sel.X, verb, pos)
+func c17xDedup(l []string) []string {
+	var out []string
+	seen := map[string]bool{}
+	for _, s := range l {
+		if !seen[s] {
+			seen[s] = true
+			out = append(out, s)
 		}
 	}
-	if id, ok := e.(*ast.Ident); ok {
-		a, found := f.latest(id.Name, pos)
-		isErrVar := c17xErrName.MatchString(id.Name) || (found && a.last)
-		if isErrVar {
-			if !found || a.rhs == nil {
-				return ".rawErr " + q("?"+id.Name)
+	return out
+}
+
+// classify returns the Lean terms for one printed value (one or, when a composite is looked through or
+// several assignments can reach the call, several)
+func (f *c17xFunc) classify(e ast.Expr, verb string, pos token.Pos, depth int) []string {
+	q := func(s string) string { return c17xLeanStr(s) }
+	if verb == "T" {
+		return []string{".typeOf " + q(c17xText(f.fset, e))}
+	}
+	switch x := e.(type) {
+	case *ast.BasicLit:
+		return []string{".lit"}
+	case *ast.ParenExpr:
+		return f.classify(x.X, verb, pos, depth)
+	}
+	if _, ok := c17xIsCall(e, "generalizeErr"); ok {
+		return []string{".genErr"}
+	}
+	if c, ok := e.(*ast.CallExpr); ok {
+		// x.Error() → classify x
+		if sel, ok := c.Fun.(*ast.SelectorExpr); ok && sel.Sel.Name == "Error" && len(c.Args) == 0 {
+			return f.classify(sel.X, verb, pos, depth)
+		}
+		fn := c17xText(f.fset, c.Fun)
+		// composites that print their parts
+		if depth < 5 {
+			switch fn {
+			case "fmt.Sprintf":
+				if len(c.Args) > 0 {
+					format, verbs := f.formatOf(c.Args[0], pos)
+					out := []string{}
+					if strings.HasPrefix(format, "?") {
+						out = append(out, f.classify(c.Args[0], "", pos, depth+1)...)
+					}
+					for i, a := range c.Args[1:] {
+						v := ""
+						if i < len(verbs) {
+							v = verbs[i]
+						}
+						out = append(out, f.classify(a, v, pos, depth+1)...)
+					}
+					if len(out) == 0 {
+						out = []string{".lit"}
+					}
+					return out
+				}
+			case "fmt.Sprint", "fmt.Sprintln":
+				out := []string{}
+				for _, a := range c.Args {
+					out = append(out, f.classify(a, "", pos, depth+1)...)
+				}
+				if len(out) == 0 {
+					out = []string{".lit"}
+				}
+				return out
+			case "string":
+				if len(c.Args) == 1 {
+					return f.classify(c.Args[0], verb, pos, depth+1)
+				}
 			}
-			if _, ok := c17xIsCall(a.rhs, "generalizeErr"); ok {
-				return ".genErr"
-			}
-			if c, ok := a.rhs.(*ast.CallExpr); ok {
-				return ".rawErr " + q(c17xText(f.fset, c.Fun))
-			}
-			return ".rawErr " + q("="+c17xText(f.fset, a.rhs))
 		}
 	}
 	if f.isNum(e, pos, 0) {
-		return ".num"
+		return []string{".num"}
 	}
-	return ".expr " + q(c17xText(f.fset, e))
+	if b, ok := e.(*ast.BinaryExpr); ok && b.Op == token.ADD && depth < 5 {
+		return append(f.classify(b.X, "", pos, depth+1), f.classify(b.Y, "", pos, depth+1)...)
+	}
+	if id, ok := e.(*ast.Ident); ok {
+		if id.Name == "nil" || id.Name == "true" || id.Name == "false" {
+			return []string{".lit"}
+		}
+		rs := f.reaching(id.Name, pos)
+		isErrVar := c17xErrName.MatchString(id.Name)
+		for _, a := range rs {
+			if a.last {
+				isErrVar = true
+			}
+		}
+		if isErrVar {
+			if len(rs) == 0 {
+				return []string{".rawErr " + q("?"+id.Name)}
+			}
+			var out []string
+			for _, a := range rs {
+				switch {
+				case a.rhs == nil:
+					out = append(out, ".rawErr "+q("?"+id.Name))
+				default:
+					if _, ok := c17xIsCall(a.rhs, "generalizeErr"); ok {
+						out = append(out, ".genErr")
+					} else if c, ok := a.rhs.(*ast.CallExpr); ok {
+						out = append(out, ".rawErr "+q(c17xText(f.fset, c.Fun)))
+					} else if rid, ok := a.rhs.(*ast.Ident); ok && rid.Name == "nil" {
+						out = append(out, ".lit")
+					} else {
+						out = append(out, ".rawErr "+q("="+c17xText(f.fset, a.rhs)))
+					}
+				}
+			}
+			return c17xDedup(out)
+		}
+		if len(rs) == 0 {
+			if f.params[id.Name] {
+				return []string{".expr " + q(id.Name+"=param("+f.name+")")}
+			}
+			return []string{".expr " + q(id.Name+"=?")}
+		}
+		var out []string
+		for _, a := range rs {
+			switch {
+			case a.rng != nil:
+				out = append(out, ".expr "+q(id.Name+"=range("+c17xText(f.fset, a.rng)+")"))
+			case a.rhs == nil:
+				out = append(out, ".expr "+q(id.Name+"=?"))
+			case a.multi:
+				out = append(out, ".expr "+q(id.Name+"="+c17xText(f.fset, a.rhs)))
+			case depth < 5 && f.lookThrough(a.rhs):
+				out = append(out, f.classify(a.rhs, "", a.pos, depth+1)...)
+			default:
+				out = append(out, ".expr "+q(id.Name+"="+c17xText(f.fset, a.rhs)))
+			}
+		}
+		return c17xDedup(out)
+	}
+	return []string{".expr " + q(c17xText(f.fset, e))}
+}
+
+// lookThrough: the value is a literal, a concatenation or a Sprintf: classify its parts instead of the name
+func (f *c17xFunc) lookThrough(e ast.Expr) bool {
+	switch x := e.(type) {
+	case *ast.BasicLit:
+		return true
+	case *ast.ParenExpr:
+		return f.lookThrough(x.X)
+	case *ast.BinaryExpr:
+		return x.Op == token.ADD
+	case *ast.CallExpr:
+		switch c17xText(f.fset, x.Fun) {
+		case "fmt.Sprintf", "fmt.Sprint", "fmt.Sprintln", "string":
+			return true
+		}
+	}
+	return false
 }
 
 func c17xLeanStr(s string) string {
@@ -264,9 +515,42 @@ func c17xVerbs(format string) []string {
 	return vs
 }
 
-func c17xIsLogger(fset *token.FileSet, recv ast.Expr) bool {
-	t := c17xText(fset, recv)
-	return t == "log" || t == "golog" || t == "fmt" || strings.HasSuffix(t, "ogger") || strings.HasSuffix(t, ".Logger")
+// formatOf resolves a format argument to its literal text ("?…" when it is not a literal)
+func (f *c17xFunc) formatOf(fe ast.Expr, pos token.Pos) (string, []string) {
+	if id, ok := fe.(*ast.Ident); ok {
+		if rs := f.reaching(id.Name, pos); len(rs) == 1 && rs[0].rhs != nil {
+			fe = rs[0].rhs
+		}
+	}
+	if bl, ok := fe.(*ast.BasicLit); ok && bl.Kind == token.STRING {
+		if s, err := strconv.Unquote(bl.Value); err == nil {
+			return s, c17xVerbs(s)
+		}
+	}
+	return "?" + c17xText(f.fset, fe), nil
+}
+
+// receivers that have Print*/Error*/Fatal*… methods or functions but are not loggers
+var c17xNotLoggers = map[string]bool{"errors": true, "xerrors": true, "status": true, "codes": true, "t": true, "b": true, "tb": true}
+
+func (f *c17xFunc) isLoggerExpr(e ast.Expr) bool {
+	t := c17xText(f.fset, e)
+	if id, ok := e.(*ast.Ident); ok && f.loggers[id.Name] {
+		return true
+	}
+	if c, ok := e.(*ast.CallExpr); ok {
+		fn := c17xText(f.fset, c.Fun)
+		return fn == "log.New" || fn == "golog.New" || fn == "log.Default" || fn == "golog.Default"
+	}
+	return t == "log" || t == "golog" || strings.HasSuffix(t, "ogger") || strings.HasSuffix(t, ".Logger")
+}
+
+func (f *c17xFunc) isLogger(recv ast.Expr) bool {
+	t := c17xText(f.fset, recv)
+	if c17xNotLoggers[t] {
+		return false
+	}
+	return t == "fmt" || f.isLoggerExpr(recv)
 }
 
 type c17xSite struct {
@@ -275,21 +559,127 @@ type c17xSite struct {
 	lean     string
 }
 
-func c17xExtract(root string) ([]c17xSite, error) {
-	var sites []c17xSite
-	for _, rel := range c17xFiles {
+func c17xFiles(root string) ([]string, error) {
+	var files []string
+	for _, d := range c17xDirs {
+		err := filepath.Walk(filepath.Join(root, d), func(p string, info os.FileInfo, err error) error {
+			if err != nil {
+				return err
+			}
+			rel, _ := filepath.Rel(root, p)
+			if info.IsDir() {
+				for _, s := range c17xSkipDirs {
+					if rel == s {
+						return filepath.SkipDir
+					}
+				}
+				return nil
+			}
+			if strings.HasSuffix(p, ".go") && !strings.HasSuffix(p, "_test.go") && !strings.HasPrefix(filepath.Base(p), "zz_verif") {
+				files = append(files, rel)
+			}
+			return nil
+		})
+		if err != nil {
+			return nil, err
+		}
+	}
+	sort.Strings(files)
+	return files, nil
+}
+
+func c17xExtract(root string) (sites []c17xSite, assigns []string, skipped []string, err error) {
+	files, err := c17xFiles(root)
+	if err != nil {
+		return nil, nil, nil, err
+	}
+	for _, rel := range files {
 		fset := token.NewFileSet()
 		file, err := parser.ParseFile(fset, filepath.Join(root, rel), nil, 0)
 		if err != nil {
-			return nil, err
+			return nil, nil, nil, err
+		}
+		// package-level loggers of this file and assignments to logClientIP (declaration included)
+		globals := map[string]bool{}
+		for _, d := range file.Decls {
+			gd, ok := d.(*ast.GenDecl)
+			if !ok || gd.Tok != token.VAR {
+				continue
+			}
+			for _, sp := range gd.Specs {
+				vs := sp.(*ast.ValueSpec)
+				for i, nm := range vs.Names {
+					if vs.Type != nil && c17xLoggerType.MatchString(c17xText(fset, vs.Type)) {
+						globals[nm.Name] = true
+					}
+					if nm.Name == "logClientIP" && strings.HasPrefix(rel, "cmd/application/") {
+						if i < len(vs.Values) {
+							assigns = append(assigns, "init:"+c17xText(fset, vs.Values[i]))
+						} else {
+							assigns = append(assigns, "init:<zero>")
+						}
+					}
+				}
+			}
+		}
+		if strings.HasPrefix(rel, "cmd/application/") {
+			ast.Inspect(file, func(n ast.Node) bool {
+				switch s := n.(type) {
+				case *ast.AssignStmt:
+					for i, l := range s.Lhs {
+						if id, ok := l.(*ast.Ident); ok && id.Name == "logClientIP" {
+							if len(s.Rhs) == len(s.Lhs) {
+								assigns = append(assigns, c17xText(fset, s.Rhs[i]))
+							} else {
+								assigns = append(assigns, c17xText(fset, s.Rhs[0]))
+							}
+						}
+					}
+				case *ast.UnaryExpr:
+					if id, ok := s.X.(*ast.Ident); ok && s.Op == token.AND && id.Name == "logClientIP" {
+						assigns = append(assigns, "&logClientIP") // its address escapes: anything could set it
+					}
+				case *ast.IncDecStmt:
+					if id, ok := s.X.(*ast.Ident); ok && id.Name == "logClientIP" {
+						assigns = append(assigns, "++")
+					}
+				}
+				return true
+			})
 		}
 		for _, d := range file.Decls {
 			fd, ok := d.(*ast.FuncDecl)
 			if !ok || fd.Body == nil {
 				continue
 			}
-			f := &c17xFunc{fset: fset, assigns: map[string][]c17xAssign{}}
+			f := &c17xFunc{fset: fset, name: fd.Name.Name, assigns: map[string][]c17xAssign{}, params: map[string]bool{},
+				loggers: map[string]bool{}, skipped: &skipped}
+			for g := range globals {
+				f.loggers[g] = true
+			}
+			fields := []*ast.Field{}
+			if fd.Recv != nil {
+				fields = append(fields, fd.Recv.List...)
+			}
+			fields = append(fields, fd.Type.Params.List...)
+			if fd.Type.Results != nil {
+				fields = append(fields, fd.Type.Results.List...)
+			}
+			for _, fl := range fields {
+				for _, nm := range fl.Names {
+					f.params[nm.Name] = true
+					if c17xLoggerType.MatchString(c17xText(fset, fl.Type)) {
+						f.loggers[nm.Name] = true
+					}
+				}
+			}
 			f.collect(fd.Body)
+			emit := func(call *ast.CallExpr, level, format string, la []string) {
+				line := fset.Position(call.Pos()).Line
+				sites = append(sites, c17xSite{rel, fd.Name.Name, line, fmt.Sprintf(
+					"  { file := %s, fn := %s, line := %d, level := .%s, format := %s,\n    args := [%s] }",
+					c17xLeanStr(rel), c17xLeanStr(fd.Name.Name), line, level, c17xLeanStr(format), strings.Join(la, ", "))})
+			}
 			ast.Inspect(fd.Body, func(n ast.Node) bool {
 				call, ok := n.(*ast.CallExpr)
 				if !ok {
@@ -299,8 +689,17 @@ func c17xExtract(root string) ([]c17xSite, error) {
 				if !ok {
 					return true
 				}
+				// logger prefixes are printed in front of every line
+				if fn := c17xText(fset, call.Fun); (fn == "log.New" || fn == "golog.New") && len(call.Args) == 3 {
+					emit(call, "print", "<prefix of log.New>", f.classify(call.Args[1], "", call.Pos(), 0))
+					return true
+				}
+				if sel.Sel.Name == "SetPrefix" && len(call.Args) == 1 && f.isLogger(sel.X) {
+					emit(call, "print", "<SetPrefix>", f.classify(call.Args[0], "", call.Pos(), 0))
+					return true
+				}
 				level, ok := c17xLevels[sel.Sel.Name]
-				if !ok || !c17xIsLogger(fset, sel.X) {
+				if !ok || len(call.Args) == 0 || !f.isLogger(sel.X) {
 					return true
 				}
 				if c17xText(fset, sel.X) == "fmt" {
@@ -311,35 +710,22 @@ func c17xExtract(root string) ([]c17xSite, error) {
 				args := call.Args
 				format := ""
 				var verbs []string
-				if strings.HasSuffix(sel.Sel.Name, "f") && len(args) > 0 {
-					fe := args[0]
-					if id, ok := fe.(*ast.Ident); ok {
-						if a, found := f.latest(id.Name, call.Pos()); found && a.rhs != nil {
-							fe = a.rhs
-						}
+				var la []string
+				if strings.HasSuffix(sel.Sel.Name, "f") {
+					format, verbs = f.formatOf(args[0], call.Pos())
+					if strings.HasPrefix(format, "?") {
+						la = append(la, f.classify(args[0], "", call.Pos(), 0)...)
 					}
-					if bl, ok := fe.(*ast.BasicLit); ok && bl.Kind == token.STRING {
-						if s, err := strconv.Unquote(bl.Value); err == nil {
-							format = s
-						}
-					} else {
-						format = "?" + c17xText(fset, fe)
-					}
-					verbs = c17xVerbs(format)
 					args = args[1:]
 				}
-				var la []string
 				for i, a := range args {
 					verb := ""
 					if i < len(verbs) {
 						verb = verbs[i]
 					}
-					la = append(la, f.classify(a, verb, call.Pos()))
+					la = append(la, f.classify(a, verb, call.Pos(), 0)...)
 				}
-				line := fset.Position(call.Pos()).Line
-				sites = append(sites, c17xSite{rel, fd.Name.Name, line, fmt.Sprintf(
-					"  { file := %s, fn := %s, line := %d, level := .%s, format := %s,\n    args := [%s] }",
-					c17xLeanStr(rel), c17xLeanStr(fd.Name.Name), line, level, c17xLeanStr(format), strings.Join(la, ", "))})
+				emit(call, level, format, la)
 				return true
 			})
 		}
@@ -350,7 +736,83 @@ func c17xExtract(root string) ([]c17xSite, error) {
 		}
 		return sites[i].line < sites[j].line
 	})
-	return sites, nil
+	return sites, assigns, c17xDedup(skipped), nil
+}
+
+// c17xLevelTable: which methods write with the level a new logger starts with.
+func c17xLevelTable() ([]string, error) {
+	var buf bytes.Buffer
+	l := log.New(&buf, "", 0)
+	probe := func(f func()) bool { buf.Reset(); f(); return buf.Len() > 0 }
+	method := map[string]bool{
+		"trace": probe(func() { l.Tracef("x") }), "debug": probe(func() { l.Debugf("x") }), "warn": probe(func() { l.Warnf("x") }),
+		"error": probe(func() { l.Errorf("x") }), "info": probe(func() { l.Infof("x") }), "print": probe(func() { l.Printf("x") }),
+	}
+	old := golog.Writer()
+	golog.SetOutput(&buf)
+	pkg := map[string]bool{
+		"trace": probe(func() { log.Tracef("x") }), "debug": probe(func() { log.Debugf("x") }), "warn": probe(func() { log.Warnf("x") }),
+		"error": probe(func() { log.Errorf("x") }), "info": probe(func() { log.Infof("x") }), "print": probe(func() { log.Printf("x") }),
+	}
+	golog.SetOutput(old)
+	var out []string
+	for _, k := range []string{"trace", "debug", "warn", "error", "info", "print"} {
+		// a level is listed as emitted when either flavour writes
+		out = append(out, fmt.Sprintf("(.%s, %v)", k, method[k] || pkg[k]))
+	}
+	out = append(out, "(.fatal, true)") // Fatal*/Panic* always write (and end the process)
+	if !method["print"] {
+		return nil, fmt.Errorf("Printf of a fresh logger wrote nothing: the probe does not work")
+	}
+	return out, nil
+}
+
+func c17xSummaryFields() []string {
+	var out []string
+	dump := func(name string, v any) {
+		t := reflect.TypeOf(v)
+		for i := 0; i < t.NumField(); i++ {
+			fl := t.Field(i)
+			if fl.PkgPath != "" {
+				continue // unexported: not marshalled
+			}
+			out = append(out, fmt.Sprintf("(%s, %s, %s)", c17xLeanStr(name), c17xLeanStr(fl.Name), c17xLeanStr(fl.Type.String())))
+		}
+	}
+	dump("tunnelStats", tunnelStats{})
+	dump("regExpireLogMsg", regExpireLogMsg{})
+	// DecoyRegistration.String() marshals a struct local to the method: take its keys from the output
+	src := pb.RegistrationSource_API
+	reg := &DecoyRegistration{PhantomIp: net.ParseIP("192.0.2.1"), PhantomPort: 443, Covert: "192.0.2.2:80", Mask: "mask.example",
+		Keys: &core.ConjureSharedKeys{SharedSecret: []byte{1, 2, 3}}, Flags: &pb.RegistrationFlags{}, RegistrationSource: &src,
+		RegistrationTime: time.Unix(0, 0), registrationAddr: net.ParseIP("203.0.113.9")}
+	var m map[string]json.RawMessage
+	if err := json.Unmarshal([]byte(reg.String()), &m); err == nil {
+		keys := make([]string, 0, len(m))
+		for k := range m {
+			keys = append(keys, k)
+		}
+		sort.Strings(keys)
+		for _, k := range keys {
+			kind := "other"
+			switch m[k][0] {
+			case '"':
+				kind = "string"
+			case '{':
+				kind = "object"
+			case '[':
+				kind = "array"
+			case 't', 'f':
+				kind = "bool"
+			case 'n':
+				kind = "null"
+			default:
+				kind = "number"
+			}
+			out = append(out, fmt.Sprintf("(%s, %s, %s)", c17xLeanStr("DecoyRegistration.String"), c17xLeanStr(k), c17xLeanStr(kind)))
+		}
+	}
+	return out
 }
 
 func TestVerifC17Extract(t *testing.T) {
@@ -358,16 +820,20 @@ func TestVerifC17Extract(t *testing.T) {
 	if root == "" {
 		root = "../../.."
 	}
-	sites, err := c17xExtract(root)
+	sites, assigns, skipped, err := c17xExtract(root)
 	if err != nil {
 		t.Fatal(err)
 	}
 	if len(sites) < 40 {
 		t.Fatalf("only %d logger call sites found: the extractor no longer understands the sources", len(sites))
 	}
+	levels, err := c17xLevelTable()
+	if err != nil {
+		t.Fatal(err)
+	}
 	var b strings.Builder
 	b.WriteString("import CJ.Model.LogTaint\n")
-	b.WriteString("/-! GENERATED on every run by go/harness/C17/zz_verif_c17_extract_test.go from the Go sources of the tree\nunder check (logger call sites of conns.go, main.go, proxies.go, registration.go, registration_ingest.go).\nDo not edit. -/\n")
+	b.WriteString("/-! GENERATED on every run by go/harness/C17/zz_verif_c17_extract_test.go from the tree under check: logger\ncall sites and logger prefixes of every non-test Go file under cmd/application, pkg/station, pkg/transports,\npkg/dtls; the log-level table; the assignments to logClientIP; the fields of the logged summaries.  Do not edit. -/\n")
 	b.WriteString("namespace CJ.Gen\nopen CJ.LogTaint\n\ndef logSites : List Site := [\n")
 	for i, s := range sites {
 		b.WriteString(s.lean)
@@ -376,7 +842,29 @@ func TestVerifC17Extract(t *testing.T) {
 		}
 		b.WriteString("\n")
 	}
-	b.WriteString("]\n\nend CJ.Gen\n")
+	b.WriteString("]\n\n")
+	b.WriteString("/-- which logger methods write at the level a logger starts with (observed at run time) -/\n")
+	b.WriteString("def levelEmitted : List (Level × Bool) := [" + strings.Join(levels, ", ") + "]\n\n")
+	b.WriteString("/-- the initialiser of each declaration of `logClientIP` (`<zero>`: none) and the right-hand side of every\nassignment to it, in cmd/application -/\n")
+	var qi, qa []string
+	for _, a := range assigns {
+		if strings.HasPrefix(a, "init:") {
+			qi = append(qi, c17xLeanStr(strings.TrimPrefix(a, "init:")))
+		} else {
+			qa = append(qa, c17xLeanStr(a))
+		}
+	}
+	b.WriteString("def logClientIPInit : List String := [" + strings.Join(qi, ", ") + "]\n")
+	b.WriteString("def logClientIPAssigns : List String := [" + strings.Join(qa, ", ") + "]\n\n")
+	b.WriteString("/-- assignments left out because they stand in the then-branch of `if logClientIP` -/\n")
+	var qs []string
+	for _, a := range skipped {
+		qs = append(qs, c17xLeanStr(a))
+	}
+	b.WriteString("def guardedByLogClientIP : List String := [" + strings.Join(qs, ", ") + "]\n\n")
+	b.WriteString("/-- (summary, field or JSON key, Go type or JSON kind) of what the station prints as JSON -/\n")
+	b.WriteString("def summaryFields : List (String × String × String) := [\n  " + strings.Join(c17xSummaryFields(), ",\n  ") + "\n]\n\n")
+	b.WriteString("end CJ.Gen\n")
 	out := os.Getenv("VERIF_OUT")
 	if out == "" {
 		out = os.TempDir()
